@@ -269,8 +269,22 @@ pub fn gen_node(prop: &str, kind: &str, profile: u8, tier: Tier, rng: &mut Rng, 
         tg.hi = 100_000_000_000;
         tg.plain = true;
     }
+    // the far end of the time axis: the whole history within a minute or so of i64::MAX (short steps,
+    // so that nothing runs off the end); no shift twin there
+    let near_max = !huge && rng.chance(0.02);
+    if near_max {
+        tg.t = i64::MAX - 400_000_000_000 + rng.range(0, 1_000_000_000);
+        tg.lo = 1;
+        tg.hi = 1_000_000_000;
+        tg.plain = true;
+        if matches!(kind, "ma_f" | "ma_q") {
+            // windows from nanoseconds to hours: `stamp + window` would leave the axis, `stamp - window` not
+            plan.set("window", rng.log_uniform(1, 14_400_000_000_000));
+        }
+    }
     let mut tiny_dt = false;
-    if !huge && matches!(kind, "cpid" | "ewma_f" | "ewma_q") && rng.chance(0.17) {
+    let ramp = if near_max { 0 } else { ramp };
+    if !huge && !near_max && matches!(kind, "cpid" | "ewma_f" | "ewma_q") && rng.chance(0.17) {
         tg.lo = 1;
         tg.hi = *rng.pick(&[8, 200, 1_000, 1_000_000]);
         tiny_dt = true;
